@@ -17,20 +17,23 @@ Skeleton == {
   L(<<"d", "lb.slice">>, <<"..", "b.slice">>), L(<<"d", "sub", "up">>, <<"..", "..", "e">>),
   D(<<"e">>),
   D(<<"g">>), F(<<"g", "w.slice">>, "slice"), F(<<"g", "bad2.slice">>, "bad"),
+  \* directories whose own name ends in ".slice": still directories (an error as a source, walked as a reference)
+  D(<<"pkg.slice">>), F(<<"pkg.slice", "in.slice">>, "slice"), D(<<"d", "sub", "deep.slice">>), F(<<"d", "sub", "deep.slice", "v.slice">>, "slice"),
   L(<<"la.slice">>, <<"a.slice">>), L(<<"ld">>, <<"d">>), L(<<"dangling.slice">>, <<"nothing.slice">>), L(<<"lnk">>, <<"a.slice">>)
 }
 Names == {"a.slice", "b.slice", "bad.slice", "x.slice", "y.slice", "z.slice", "lb.slice", "w.slice", "bad2.slice", "la.slice",
-          "dangling.slice", "missing.slice", "nothing.slice"}
+          "dangling.slice", "missing.slice", "nothing.slice", "pkg.slice", "in.slice", "deep.slice", "v.slice"}
 
 AllSpellings == {
   <<"a.slice">>, <<".", "a.slice">>, <<"d", "..", "a.slice">>, <<"ROOT", "a.slice">>, <<"la.slice">>, <<"b.slice">>, <<"d", "lb.slice">>,
   <<"c.txt">>, <<"noext">>, <<"lnk">>, <<"d">>, <<"ld">>, <<"d", "sub">>, <<"e">>, <<"dangling.slice">>, <<"missing.slice">>, <<"bad.slice">>,
-  <<"d", "x.slice">>, <<"ld", "x.slice">>, <<"g">>, <<"d", "sub", "..", "y.slice">>, <<"ROOT", "d">>, <<"d", "sub", "up">>
+  <<"d", "x.slice">>, <<"ld", "x.slice">>, <<"g">>, <<"d", "sub", "..", "y.slice">>, <<"ROOT", "d">>, <<"d", "sub", "up">>,
+  <<"pkg.slice">>, <<"pkg.slice", "in.slice">>
 }
 \* a covering subset for the quick tier: every kind of argument, several spellings of one file
 SomeSpellings == {
   <<"a.slice">>, <<"d", "..", "a.slice">>, <<"la.slice">>, <<"b.slice">>, <<"c.txt">>, <<"lnk">>, <<"d">>, <<"ld">>, <<"d", "sub">>, <<"e">>,
-  <<"dangling.slice">>, <<"missing.slice">>, <<"bad.slice">>, <<"ld", "x.slice">>, <<"g">>, <<"ROOT", "a.slice">>
+  <<"dangling.slice">>, <<"missing.slice">>, <<"bad.slice">>, <<"ld", "x.slice">>, <<"g">>, <<"ROOT", "a.slice">>, <<"pkg.slice">>
 }
 Spellings == IF SpellingSet = "all" THEN AllSpellings ELSE SomeSpellings
 
